@@ -202,6 +202,26 @@ theorem size_hint_brackets (it : Iter) (hb : validBits it.bits = true) (hf : it.
   rw [size_hint_exact it hb hf]
   exact ⟨Nat.le_refl _, fun u hu => by cases hu; exact Nat.le_refl _⟩
 
+/-- The guard `Iter.Fits` is needed only in the model's saturating arithmetic: the unguarded claim ... -/
+def size_hint_exact_unguarded : Prop :=
+  ∀ it : Iter, validBits it.bits = true → it.sizeHint = (it.toList.length, some it.toList.length)
+
+/-- ... fails exactly where `len.saturating_mul(8 / bits)` saturates: a 2^61-byte slice of 1-bit
+pixels holds 2^64 pixels, `size_hint` answers `(usize::MAX, Some(usize::MAX))`. Such a slice
+cannot be allocated, so this is an observation about the model's boundary, not a replayable
+defect (the upper bound would have to be `None` there). -/
+theorem size_hint_saturates_beyond_fits : ¬ size_hint_exact_unguarded := by
+  intro h
+  obtain ⟨data, hd⟩ : ∃ data : List Nat, data.length = 2305843009213693952 :=
+    ⟨List.replicate 2305843009213693952 0, List.length_replicate⟩
+  have h1 := h ⟨1, .le, data, 0⟩ rfl
+  have h2 := Iter.toList_length ⟨1, .le, data, 0⟩ rfl
+  rw [h2] at h1
+  simp only [Iter.sizeHint, Iter.count, pixelCount, satMulUsize, usizeMax, hd,
+    Nat.reduceLT, ↓reduceIte, Nat.reduceDiv, Nat.reduceMul, Nat.reduceLeDiff,
+    Nat.sub_zero, Prod.mk.injEq] at h1
+  omega
+
 /-! ### Non-vacuity: concrete instances of the hypotheses used above -/
 
 example : validBits 2 = true ∧ subByte 2 ∧ multiByte 24 := by decide
